@@ -369,7 +369,7 @@ class PropertyTimeRangeMatcher:
 
     def match(self, prop, tzify):
         dt = tzify(prop.dt)
-        return dt >= self.start and dt <= self.end
+        return dt >= self.start and dt < self.end
 
     def match_indexes(self, prop: SubIndexDict, tzify: TzifyFunction):
         return any(
